@@ -80,7 +80,12 @@ def handleC12 (inp obs : List String) : Verdict :=
         detail := s!"parse::<{repr ty}>({hexEncode line}) = {showPRes o}; required: {match expect with | .accept => "Ok" | .bedError e => "Err " ++ errClass e | .someError => "Err"}" }
     else
       let m := modelParse fc ty line
-      if m != o then { kind := "diverge", nontrivial, classes, detail := s!"model {showPRes m}, implementation {showPRes o}" }
+      -- the property fixes the error only for the BED columns: when a format-specific column is at
+      -- fault, model and implementation agree as soon as both reject the line
+      let agree := match expect, m, o with
+        | .someError, .err _, .err _ => true
+        | _, _, _ => m == o
+      if !agree then { kind := "diverge", nontrivial, classes, detail := s!"model {showPRes m}, implementation {showPRes o}" }
       else { kind := "ok", nontrivial, classes }
   | _, _ => { kind := "badcase", detail := "unparsable C12 case" }
 
